@@ -117,11 +117,12 @@ def run_selftest(pid, root, seed, jobs=None):
                 failures.append(f"{v.name}: behaviour-preserving twin changed the verdict (new: {sorted(new)}, "
                                 f"gone: {sorted(gone)})")
     # whole-package twins: re-emitted by ast.unparse, and with every function-local variable renamed
-    from .twins import transform_tree, transform_tree_logging, transform_tree_control, transform_tree_temps, transform_tree_hoist
+    from .twins import transform_tree, transform_tree_logging, transform_tree_control, transform_tree_temps, transform_tree_hoist, transform_tree_argstyle
     for label, rename in (("unparse", False), ("rename-locals", True), ("logging+annotations", None),
                           ("inverted-ifs+mirrored-comparisons", "control"),
                           ("return-temporaries+if-statements+docstrings+unused-additions", "temps"),
-                          ("hoisted-subexpressions", "hoist")):
+                          ("hoisted-subexpressions", "hoist"),
+                          ("positional<->keyword-arguments", "argstyle")):
         tmp = tempfile.mkdtemp(prefix="tsverif-twin-")
         try:
             shutil.copytree(os.path.join(root, "torchsde"), os.path.join(tmp, "torchsde"),
@@ -134,6 +135,8 @@ def run_selftest(pid, root, seed, jobs=None):
                 transform_tree_temps(tmp)
             elif rename == "hoist":
                 transform_tree_hoist(tmp)
+            elif rename == "argstyle":
+                transform_tree_argstyle(tmp)
             else:
                 transform_tree(tmp, rename=rename)
             try:
